@@ -43,6 +43,18 @@ CHECKS["C04"] = (
     "last requested digit in exact arithmetic.",
     "Trusts numpy/scipy.sparse conversions; form inference on nearly-symmetric matrices accepts 1 or 6; "
     "values whose decimal rounding exceeds DBL_MAX are out of domain.", "3/C04")
+CHECKS["C07"] = (
+    "Hypothesis-generated matrices by structure class and norm (atoms at every Pade/squaring switch); "
+    "reference = 40-digit mpmath exponential of the augmented block matrix; differential between all "
+    "getEPQ variants; c2d/d2c inverse pairs, exact sampled response, Tustin transfer-function identity",
+    "Generated-input search over dense/triangular/diagonal/Jordan/nilpotent/singular/zero/stable/stiff/skew "
+    "matrices with ||Ah||_1 from 1e-6 to 1e3 on both sides of every algorithm switch, order 0/1, B "
+    "None/matrix/half. E, I1, I2 and E,P,Q of expmint/getEPQ/getEPQ1/getEPQ2/getEPQ_pow are compared with "
+    "a 40-digit reference (tolerance 200*eps*(1+||Ah||)*scale, never tighter than 10x scipy.linalg.expm's "
+    "own error); SSModel conversions are checked as inverse pairs, against exactly sampled responses and "
+    "through the bilinear-transform identity.",
+    "Trusts mpmath.expm at 40 digits; known finding F11 (I2 in the Pade-13 branch for ill-conditioned A) "
+    "is excluded by signature and counted.", "3/C07")
 
 NOT_APPLICABLE = {
 }
